@@ -114,6 +114,7 @@ fn candidates(sc: &Scenario) -> Vec<Scenario> {
     push(&|c| c.activity = None);
     push(&|c| c.reentrant_sort = false);
     push(&|c| c.render = false);
+    push(&|c| c.world.filter_reversed = false);
     push(&|c| c.cancel_during_render = false);
     for bit in [1u8, 2, 4, 8] {
         push(&|c| c.yield_mask &= !bit);
